@@ -267,15 +267,16 @@ class ResourcePeriodicallyUnavailable(ResourceConstraint):
                         )
                     ]
 
+                    # a busy interval in the past means that the resource is not
+                    # assigned to the task (worker not selected, task not scheduled):
+                    # there is nothing to constrain
+                    conds.append(end_task_i < 0)
                     if self.start > 0:
                         conds.append(end_task_i <= self.start)
                     if self.end is not None:
                         conds.append(start_task_i >= self.end)
 
-                    if len(conds) > 1:
-                        self.set_z3_assertions(z3.Or(*conds))
-                    else:
-                        self.set_z3_assertions(*conds)
+                    self.set_z3_assertions(z3.Or(*conds))
 
         if not resource_assigned:
             raise AssertionError(
@@ -540,6 +541,9 @@ class ResourcePeriodicallyInterrupted(ResourceConstraint):
                 # the activity window [start, end) applies to each task on its own:
                 # a task that lies entirely outside of it is not constrained
                 mask = [z3.And(*task_conds)]
+                # a busy interval in the past means that the resource is not assigned
+                # to the task (worker not selected, task not scheduled)
+                mask.append(end_task_i < 0)
                 if self.start > 0:
                     mask.append(end_task_i <= self.start)
                 if self.end is not None:
